@@ -40,6 +40,7 @@ fn main() {
         std::process::exit(vcheck::replay::replay(&prop, &path));
     }
     let run = match prop.as_str() {
+        "C01" => vcheck::checks::c01::run(tier),
         "C02" => vcheck::checks::c02::run(tier),
         "C03" => vcheck::checks::c03::run(tier),
         "C04" => vcheck::checks::c04::run(tier),
@@ -51,6 +52,7 @@ fn main() {
         "C12" => vcheck::checks::c12::run(tier),
         "C13" => vcheck::checks::c13::run(tier),
         "C14" => vcheck::checks::c14::run(tier),
+        "C15" => vcheck::checks::c15::run(tier),
         "C16" => vcheck::checks::c16::run(tier),
         "C17" => vcheck::checks::c17::run(tier),
         "C19" => vcheck::checks::c19::run(tier),
